@@ -40,7 +40,7 @@ REQUIRED = {"wild.formatter_events_grammar": {"quick": 8, "thorough": 300}, "eve
             "progress3.chars": {"quick": 500, "thorough": 25000}, "json.readback_file": {"quick": 100, "thorough": 300},
             "factory.own_file_has_own_report": {"quick": 150, "thorough": 6000},
             "factory.formatter_without_file_writes_stdout": {"quick": 50, "thorough": 2000}}
-REQUIRED_SEEN = {"nested_sub_step": ["fail", "undefined", "error"], "terminal_size_reported": ["some_rows_some_columns", "some_rows_zero_columns", "zero_rows_some_columns", "zero_rows_zero_columns"], "environment_habit": ["raising_testrun_cleanup", "no_background_fixture_with_status_reading_hooks"], "config_file_outfiles": ["given", "none"], "formatter_active": BUILTINS, "pretty_step_line_length": ["at_a_multiple_of_the_terminal_width", "next_to_a_multiple"]}
+REQUIRED_SEEN = {"nested_sub_step": ["fail", "undefined", "error"], "json_report_written_in": ["c_locale", "latin1_console"], "terminal_size_reported": ["some_rows_some_columns", "some_rows_zero_columns", "zero_rows_some_columns", "zero_rows_zero_columns"], "environment_habit": ["raising_testrun_cleanup", "no_background_fixture_with_status_reading_hooks"], "config_file_outfiles": ["given", "none"], "formatter_active": BUILTINS, "pretty_step_line_length": ["at_a_multiple_of_the_terminal_width", "next_to_a_multiple"]}
 NSHARDS = {"quick": 16, "thorough": 16}
 DOT = {"passed": ".", "failed": "F", "error": "E", "hook_error": "H", "skipped": "S", "untested": "_",
        "untested_pending": "p", "untested_undefined": "u", "undefined": "U", "pending": "P", "pending_warn": "p"}
@@ -832,9 +832,52 @@ def pretty_on_a_pty(mon, rng, size):
               lambda: RB.witness(c2, rc=res["rc"], error=err, got=got, want=want, stderr=res["stderr"][-600:], report=report_text[:300]))
 
 
+def json_file_in_other_locales(mon, rng):
+    """`python -m behave -f json[.pretty] -o FILE` in a process whose locale / console encoding is not UTF-8, on features with
+    non-ASCII step texts: the report file is valid JSON that mirrors the model."""
+    import json as _json
+    from ..lab.subproc import Project
+    for _try in range(8):
+        case = RB.gen_case(rng, gen={"max_features": 1, "max_rules": 0, "p_nonpass": 0.3, "outcomes": ["fail", "error"]},
+                           p_stop=0.0, p_dry=0.0, p_noskipped=0.0, tags=False)
+        if any("l\u00f6st" in t for t in case["program"]["outcomes"]):
+            break
+    else:
+        return
+    pred = runmodel.predict(case["program"], case["cfg"])
+    fmt = rng.choice(["json", "json.pretty"])
+    envname = rng.choice(["c_locale", "latin1_console", "plain"])
+    proj = Project(case["program"], {})
+    try:
+        res = proj.run(case["args"] + ["-f", fmt, "-o", "report.json"], environment=envname)
+        try:
+            with open(os.path.join(proj.root, "report.json"), "rb") as fh:
+                raw = fh.read()
+        except OSError as ex:
+            raw = ("<%r>" % (ex,)).encode()
+    finally:
+        proj.close()
+    if res.get("timeout"):
+        mon.note("subprocess watchdog fired (inconclusive case)")
+        return
+    c2 = dict(case, formatter=fmt, process_environment=envname)
+    mon.case(("json-locale", RB.strip_case(c2)), True)
+    mon.seen("json_report_written_in", envname)
+    try:
+        data = _json.loads(raw.decode("utf-8"))
+        got = {el["name"]: el.get("status") for f in data for el in f.get("elements", []) if el.get("type") != "background"}
+        err = None
+    except Exception as ex:
+        got, err = None, repr(ex)
+    want = {n: next(iter(v)) for n, v in pred.scen_status.items()}
+    mon.check("process.json_report_valid_in_any_locale", err is None and got == want and "Traceback" not in res["stderr"],
+              lambda: RB.witness(c2, error=err, got=got, want=want, rc=res["rc"], stderr=res["stderr"][-500:], stdout=res["stdout"][-300:], report=raw[:200].decode("utf-8", "replace")))
+
+
 def run(spec, mon):
     from ..lab.inproc import RunLab
     lab = RunLab()
+    json_file_in_other_locales(mon, random.Random(spec["seed"] * 17 + spec["shard"]))
     sizes = [(24, 80), (24, 0), (0, 80), (0, 0), (50, 132), (1, 1)]
     for j in range(1 if spec.get("tier", "quick") == "quick" else 12):
         pretty_on_a_pty(mon, random.Random(spec["seed"] * 31 + j), sizes[(spec["shard"] + j) % len(sizes)])
